@@ -326,6 +326,30 @@ fn fixed_programs() -> Vec<(Program, Vec<String>)> {
         },
         vec!["h1".to_string()],
     ));
+    // a handler that installs the next one
+    v.push((
+        Program {
+            stmts: vec![
+                label("main"),
+                la(T0, "first"),
+                csrw(T0),
+                li(A7, 10),
+                ecall(),
+                label("first"),
+                addi(SP, SP, -4),
+                sw(T0, 0, SP),
+                la(T0, "second"),
+                csrw(T0),
+                lw(T0, 0, SP),
+                addi(SP, SP, 4),
+                pseudo("uret", Inst::Jalr(0, 1, 0)),
+                label("second"),
+                addi(T1, T1, 1),
+                pseudo("uret", Inst::Jalr(0, 1, 0)),
+            ],
+        },
+        vec!["first".to_string(), "second".to_string()],
+    ));
     // places where sharing starts: a function's own return that is merged into a shared exit
     // is no way into the shared code
     v.push((
